@@ -209,3 +209,52 @@ Fixpoint cancelled_last (cbs : list (option bool)) : bool :=
   | Some true :: r => match r with [] => true | _ => false end
   | _ :: r => cancelled_last r
   end.
+
+(* ---------- C09: what the panel must receive ---------- *)
+(* pieces between line feeds; a stream in which every line is terminated ends with an empty piece *)
+Fixpoint split_lf_aux (s : bytes) (cur : bytes) : list bytes :=
+  match s with
+  | [] => [rev_append cur []]
+  | b :: r => if b =? 10 then rev_append cur [] :: split_lf_aux r [] else split_lf_aux r (b :: cur)
+  end.
+Definition split_lf (s : bytes) : list bytes := split_lf_aux s [].
+
+Fixpoint strip_prefix (p l : list bytes) : option (list bytes) :=
+  match p, l with
+  | [], _ => Some l
+  | x :: p', y :: l' => if bytes_eqb x y then strip_prefix p' l' else None
+  | _ :: _, [] => None
+  end.
+
+(* [obs] (units: messages or lines) is an interleaving of the submitters' sequences in which
+   every submission's units stay together and every submitter's submissions keep their order:
+   nothing dropped, duplicated or mixed.  subs : per submitter, its submissions, each a list
+   of units.  fuel > total number of submissions. *)
+Definition drop_empty (s : list (list bytes)) : list (list bytes) :=
+  filter (fun u => match u with [] => false | _ => true end) s.
+
+Fixpoint try_each (rec : list bytes -> list (list (list bytes)) -> bool) (obs : list bytes)
+         (before after : list (list (list bytes))) : bool :=
+  match after with
+  | [] => false
+  | s :: r =>
+    (match s with
+     | u :: s' =>
+       match strip_prefix u obs with
+       | Some obs' => rec obs' (rev_append before (s' :: r))
+       | None => false
+       end
+     | [] => false
+     end) || try_each rec obs (s :: before) r
+  end.
+
+Fixpoint merge_ok (fuel : nat) (obs : list bytes) (subs : list (list (list bytes))) : bool :=
+  match fuel with
+  | O => false
+  | S f =>
+    let subs' := filter (fun s => match s with [] => false | _ => true end) (map drop_empty subs) in
+    match subs' with
+    | [] => match obs with [] => true | _ => false end
+    | _ => try_each (merge_ok f) obs [] subs'
+    end
+  end.
